@@ -606,7 +606,11 @@ func RunCrashScenario(sc *Scenario) (vd *Verdict) {
 			fail(viol(sc.Property, "harness", "invalid", "unknown op kind %q", op.K), i)
 			return
 		}
-		if werr != nil && !errors.Is(werr, errInjected) {
+		if werr != nil && op.M != nil && op.M["mayReject"] == true {
+			// a batch the store is free to refuse (too large for one transaction, or carrying an entity it must refuse):
+			// like an injected failure, it must then be entirely absent
+			r.Stats["oversized_batches_refused"]++
+		} else if werr != nil && !errors.Is(werr, errInjected) {
 			fail(viol(sc.Property, "write", "write-rejected", "op %d (%s) failed: %v", i, op.K, werr), i)
 			return
 		}
